@@ -20,7 +20,7 @@ class Prop(PropBase):
     id = "C20"
     lean_targets = ["PbProps.C20"]
     theorems = ["Pb.C20." + t for t in ("C20_names", "C20_stft_labels", "C20_index_map", "C20_istft_labels", "C20_istft_inverse", "C20_source_formulas")]
-    trusted_base = ["PbModel/Stft.lean + Gen/Fft.lean (translator)", "numpy.fft and a longdouble DFT matrix as references"]
+    trusted_base = ["pbverif/extract.py: symbolic evaluation of the method bodies into PbModel/Gen/Stft.lean (trusted to render the source expressions faithfully; tied to the hand model by the C20_source_* theorem)", "PbModel/Stft.lean + Gen/Fft.lean (translator)", "numpy.fft and a longdouble DFT matrix as references"]
     assumptions = []
     rule = ("names: 14 transforms x rank 1-3 x axis/axes x optional n/s x norm in {None,'ortho','forward'} x float/complex input x "
             "NumPy/Dask + unknown names; stft: BasebandSignal/DualPol, nchan 1-4, 3 alignments, nperseg in {1,2,3,4,5,8,len}, "
